@@ -137,9 +137,11 @@ pub fn alphabet_b() -> Vec<Op> {
 /// abstract state: id -> content
 pub type Abs = BTreeMap<usize, usize>;
 
-/// same key registered with two different kinds: outcome is C11's business
-fn pruned(a: &Abs) -> bool {
-    a.values().any(|c| *c == 1) && a.values().any(|c| *c == 2)
+/// Nothing is pruned any more: states registering one key with two kinds (c1 and c2 together)
+/// were C11's business while the kind seen by importers depended on hash order; since the repair
+/// 74eb68d the live parser and the fresh parser must agree there too.
+fn pruned(_a: &Abs) -> bool {
+    false
 }
 
 /// model transition; returns (new state, whether add_file must report an error)
@@ -481,6 +483,10 @@ pub fn run(tier: Tier, seed: u64) -> i32 {
                         if tier == Tier::Quick && s.len() > 2 && (cbom == 1 || s.values().any(|c| *c == 4)) {
                             continue;
                         }
+                        // quick: four-file states only where the three main ids hold the same content
+                        if tier == Tier::Quick && s.len() > 3 && !(ca == cb && cb == cm) {
+                            continue;
+                        }
                         if !pruned(&s) {
                             states.push(s);
                         }
@@ -541,7 +547,7 @@ pub fn run(tier: Tier, seed: u64) -> i32 {
         "explicit-state exploration of operation histories on the real Parser<PathBuf>: alphabet A (30 operations: add_content 3 ids x 5 contents (one of them the CRLF twin of another) + one id that exists on disk as invalid UTF-8, add_file of four readable files (one under a non-canonical path, one starting with a byte order mark, one of 2 KiB with multi-byte characters across every 512-byte boundary) / a missing file / a non-UTF-8 file / a directory, remove_content of 5 ids, validate), alphabet B (11 operations); full history trees from the empty parser to the stated depths and all suffixes of the stated length from every reachable abstract state; after every transition validate() of the live object is compared with validate() of a fresh parser loaded with the abstract id -> content map (trees by equality, diagnostics as position-sorted lists, id tags, add_file's error status); states = transitions executed (every node is checked), distinct_nontrivial = distinct abstract states reached",
         &[
             "hook H4 (derive Clone on Parser) lets the explorer branch from a live object; every violation is re-confirmed by a from-scratch replay of the plain history without clones",
-            "abstract states registering one key with two kinds (c1 and c2 together) are pruned (C11's business) and counted",
+            "abstract states registering one key with two kinds (c1 and c2 together) are explored like all others (no pruning since the repair 74eb68d)",
         ],
         &|c| check_case(c).to_result(),
         &[
